@@ -1,6 +1,6 @@
 #!/bin/bash
 # build the Coq development from files on disk (offline)
 here="$(cd "$(dirname "$0")" && pwd)"
-export PYTHONPATH="/repo:$here"
+export PYTHONPATH="${USIM_REPO:-/repo}:$here"
 export PYTHONDONTWRITEBYTECODE=1
 exec /venv/bin/python -m harness.coqbuild --full
